@@ -478,6 +478,9 @@ func c11(r *ev.Run) {
 	r.Assume("resource bound per case: peak RSS may grow by at most 64 MiB + 64 x input bytes + the largest declared bulk length (<= 512 MiB) + 64 B x the largest declared array length (<= 2^20) above the previous peak")
 	r.Assume("verdict: the proxy process exits, stops answering a canary on another connection through a healthy node (3 tries), or exceeds the resource bound; the offending connection may get an error or be closed; silence with the connection open is legal only for syntactically incomplete input")
 	runAPIPart(r, "parsers", false, nil, 10*time.Minute)
+	if os.Getenv("VERIF_C11_ONLY") == "" || os.Getenv("VERIF_C11_ONLY") == "poison" {
+		c11Poison(r)
+	}
 
 	rnd := rand.New(rand.NewSource(r.Seed + 11))
 	thorough := r.Tier == "thorough"
@@ -701,4 +704,109 @@ func (e *c11Env) runBackend(c *hostileCase) string {
 		return do("GET", e.canKey)
 	}
 	return "?"
+}
+
+// c11Poison: one client sends requests a Redis server treats as protocol errors (a null bulk string as key or argument). A server
+// answers such a request with an error and closes the connection - which, behind the proxy, is the backend connection shared by
+// every client. Another client that pipelines ordinary requests meanwhile must not see a single error.
+func c11Poison(r *ev.Run) {
+	s, err := startSUT(r, false, 60000, 20)
+	if err != nil {
+		r.Internal("start sut: %v", err)
+		return
+	}
+	defer s.Close()
+	cl, err := fakecluster.New(2, 0)
+	if err != nil {
+		r.Internal("fakecluster: %v", err)
+		return
+	}
+	defer cl.Close()
+	cl.AssignContiguous()
+	cl.LogArgs = false
+	svc, err := startRedisSvc(s, cl, cl.Addrs(), RedisOpts{})
+	if err != nil || !svc.WaitRouting(1, 10*time.Second) {
+		r.Internal("service did not start: %v", err)
+		return
+	}
+	victim, err1 := svc.Dial()
+	attacker, err2 := svc.Dial()
+	if err1 != nil || err2 != nil {
+		r.Internal("dial")
+		return
+	}
+	defer victim.Close()
+	defer attacker.Close()
+	stop := make(chan struct{})
+	var verr, vok int64
+	var firstErr atomic.Value
+	var wg sync.WaitGroup
+	wg.Add(1)
+	go func() {
+		defer wg.Done()
+		for i := 0; ; i++ {
+			select {
+			case <-stop:
+				return
+			default:
+			}
+			v, err := victim.DoS(5*time.Second, "SET", fmt.Sprintf("victim.%d", i%200), "v")
+			if err != nil {
+				firstErr.Store("no reply: " + err.Error())
+				atomic.AddInt64(&verr, 1)
+				return
+			}
+			if v.Kind == resp.Error {
+				firstErr.Store(v.String())
+				atomic.AddInt64(&verr, 1)
+			} else {
+				atomic.AddInt64(&vok, 1)
+			}
+		}
+	}()
+	shapes := map[string][]byte{
+		"null-key":            []byte("*2\r\n$3\r\nGET\r\n$-1\r\n"),
+		"null-value":          []byte("*3\r\n$3\r\nSET\r\n$1\r\nk\r\n$-1\r\n"),
+		"null-among-mget":     []byte("*3\r\n$4\r\nMGET\r\n$1\r\na\r\n$-1\r\n"),
+		"null-field":          []byte("*4\r\n$4\r\nHSET\r\n$1\r\nh\r\n$-1\r\n$1\r\nv\r\n"),
+		"null-second-of-mset": []byte("*5\r\n$4\r\nMSET\r\n$1\r\na\r\n$1\r\n1\r\n$-1\r\n$1\r\n2\r\n"),
+	}
+	names := make([]string, 0, len(shapes))
+	for n := range shapes {
+		names = append(names, n)
+	}
+	sort.Strings(names)
+	rounds := 40
+	if r.Tier == "thorough" {
+		rounds = 400
+	}
+	for i := 0; i < rounds || atomic.LoadInt64(&vok)+atomic.LoadInt64(&verr) < 200 && i < 100*rounds; i++ {
+		for _, n := range names {
+			time.Sleep(300 * time.Microsecond)
+			attacker.C.SetWriteDeadline(time.Now().Add(2 * time.Second))
+			if _, err := attacker.C.Write(shapes[n]); err != nil {
+				attacker.Close()
+				attacker, _ = svc.Dial()
+				continue
+			}
+			if _, err := attacker.Read(2 * time.Second); err != nil {
+				attacker.Close()
+				attacker, _ = svc.Dial()
+			}
+			r.Count("poison_requests_sent", 1)
+		}
+	}
+	close(stop)
+	wg.Wait()
+	if sutDied(r, s, "null bulk strings in requests") {
+		return
+	}
+	if n := atomic.LoadInt64(&verr); n > 0 {
+		r.Violation("C11:other-connection-disturbed:null-bulk-in-request", fmt.Sprintf("while another client sent requests with null bulk strings, %d of %d ordinary requests of an innocent connection failed (%v): the proxy relayed what a server answers with a protocol error and the close of the shared backend connection", n, n+atomic.LoadInt64(&vok), firstErr.Load()),
+			map[string]interface{}{"shapes": names, "victim_errors": n, "victim_ok": atomic.LoadInt64(&vok)})
+	}
+	r.Count("victim_requests_during_poison", atomic.LoadInt64(&vok)+atomic.LoadInt64(&verr))
+	r.Case("poison/null-bulk")
+	r.Require("poison_requests_sent", 20)
+	r.Require("victim_requests_during_poison", 50)
 }
